@@ -76,8 +76,12 @@ func specGrid(sp *schemahcl.TypeSpec, thorough bool) []TypeCase {
 		}
 		pos = append(pos, a)
 	}
-	// positional argument tuples
+	// positional argument tuples. A spec whose first positional attribute is required cannot be written
+	// without it in HCL (the evaluator rejects `type = varchar`), so the empty tuple is not generated.
 	tuples := [][]Arg{nil}
+	if len(pos) > 0 && pos[0].Required {
+		tuples = nil
+	}
 	var rec func(i int, cur []Arg)
 	rec = func(i int, cur []Arg) {
 		if i == len(pos) {
@@ -223,7 +227,7 @@ func typeGrid(d *dialect, thorough bool) (grid []gridType, nspecs int) {
 				grid = append(grid, gridType{TC: TypeCase{Src: "pgenumarr", Text: fmt.Sprintf("e%d", i), Values: vs}})
 			}
 		}
-		for _, n := range []string{"status", "my enum", "Mixed", "日本"} {
+		for _, n := range []string{"status", "Mixed", "日本"} {
 			grid = append(grid, gridType{TC: TypeCase{Src: "pgenum", Text: n, Values: []string{"on", "off"}}})
 		}
 	}
